@@ -105,6 +105,20 @@ def small_cases(rng, count):
     return out
 
 
+def connected_no_scalars(inputs):
+    """an edge path can only join tensors that share an index: at path level it is complete only for connected networks"""
+    if any(len(t) == 0 for t in inputs):
+        return False
+    seen, todo = {0}, [0]
+    while todo:
+        i = todo.pop()
+        for j in range(len(inputs)):
+            if j not in seen and set(inputs[i]) & set(inputs[j]):
+                seen.add(j)
+                todo.append(j)
+    return len(seen) == len(inputs)
+
+
 def path_case(N, path):
     return {"kind": "linear", "N": N, "path": [[int(i) for i in p] for p in path]}
 
@@ -156,7 +170,11 @@ def run(run):
                           d, tags=tags_of(api, kind, N, "raised") | {type(e).__name__})
             return None
         try:
-            if want == "path":
+            if want == "path-valid":
+                pc = path_case(N, r)
+                pc["kind"] = "linear_valid"
+                cases.append(pc)
+            elif want == "path":
                 cases.append(path_case(N, r))
             else:
                 if r.N != N or tuple(map(tuple, r.inputs)) != tuple(map(tuple, inputs)) and not api.startswith("array_contract"):
@@ -226,6 +244,17 @@ def run(run):
                  lambda: ct.array_contract_path(inputs, output, size, optimize=list(lin), cache=False), inputs, output, size, "path")
             ixs = sorted(size)
             rng.shuffle(ixs)
+            if ixs and all(isinstance(x, str) for x in ixs):
+                # explicit EDGE paths (orders of index labels) through the interface, as tuple and as list, after the
+                # explicit linear paths above went through the same entry points
+                call("array_contract_path(explicit edge path)", kind, N,
+                     lambda: ct.array_contract_path(inputs, output, size, optimize=tuple(ixs), cache=False), inputs, output, size,
+                     "path" if connected_no_scalars(inputs) else "path-valid")
+                call("array_contract_tree(explicit edge path)", kind, N,
+                     lambda: ct.array_contract_tree(inputs, output, size, optimize=list(ixs)), inputs, output, size, "tree")
+                call("array_contract_path(explicit edge path as list)", kind, N,
+                     lambda: ct.array_contract_path(inputs, output, size, optimize=list(ixs), cache=False), inputs, output, size,
+                     "path" if connected_no_scalars(inputs) else "path-valid")
             if ixs:
                 call("from_path(edge_path, autocomplete)", kind, N,
                      lambda: ct.ContractionTree.from_path(inputs, output, size, edge_path=ixs, autocomplete=True),
